@@ -8,6 +8,7 @@
 (* ========================================================================= *)
 From Coq Require Import String List Bool.
 From Cop Require Import Lib.PyVineFit.
+From Cop Require Model.Lifecycle Spec.VineSerial.
 Import ListNotations.
 Open Scope string_scope.
 
@@ -93,3 +94,26 @@ Example fit_fresh_raises_in_marginal :
   getattr (fst (vine_fit_state RaisesInMarginal vine_init_attrs)) "trees" = Some VEmptyList /\
   getattr (fst (vine_fit_state RaisesInMarginal vine_init_attrs)) "u_matrix" = Some (VEmptyMat (VSelf "n_sample") (VSelf "n_var")).
 Proof. repeat split; reflexivity. Qed.
+
+(* ------------------------------------------------------------------ *)
+(* what the attribute bindings of __init__ mean for Spec.VineSerial.vine (type, random state, no fitted body): the constructor
+   call as a function of (parameter names, required names, bindings) *)
+Section Init.
+Import Cop.Model.Lifecycle Cop.Spec.VineSerial.
+Definition init_of_attrs (names required : list string) (attrs : vobj) (args : list jv) (kw : list (string * jv)) : result vine :=
+  bind (bind_args names args kw) (fun b =>
+  match getattr attrs "vine_type", getattr attrs "random_state", getattr attrs "u_matrix" with
+  | Some (VParam p), Some (VValidRS (VParam q)), Some VNone =>
+      if existsb (String.eqb p) required then
+        match lookup p b with
+        | None => Err TypeErr                (* missing required positional argument *)
+        | Some vt => bind (validate_rs (getd q b JNone)) (fun rs => Ok (mkVine vt rs None))
+        end
+      else Err Unmodelled
+  | _, _, _ => Err Unmodelled
+  end).
+
+Theorem init_of_attrs_new_vine : forall args kw,
+  init_of_attrs vine_init_names vine_init_required vine_init_attrs args kw = new_vine args kw.
+Proof. intros args kw. reflexivity. Qed.
+End Init.
